@@ -182,13 +182,34 @@ func runInproc(c *fw.Ctx, idx int, r *fw.Rand) {
 	dir := c.TempDir("c10fs")
 	defer os.RemoveAll(dir)
 	sc := storageCfg(dir, cap, period)
-	open := func() (storage.Store, error) { return sut.NewStore("file", sc, extension.NewHost()) }
+	// A third of the histories are restarted with a DIFFERENT message cap each time (an
+	// administrator lowering or raising INBUCKET_STORAGE_MAILBOXMSGCAP between runs): what is
+	// on disk must still be shown in full, and the next delivery to a mailbox brings it within
+	// the new cap by evicting its oldest messages.
+	changeCap := r.Chance(1, 3)
+	capSalt := r.Uint64()
+	nOpen := 0
+	var e *c07.Exec
+	open := func() (storage.Store, error) {
+		cfg := sc
+		if changeCap && nOpen > 0 {
+			cfg.MailboxMsgCap = caps[int((capSalt>>(uint(nOpen%16)*3))%uint64(len(caps)))]
+			if e != nil {
+				e.M.Cap = cfg.MailboxMsgCap
+				if cfg.MailboxMsgCap != cap {
+					e.Counts["reopens_with_changed_cap"]++
+				}
+			}
+		}
+		nOpen++
+		return sut.NewStore("file", cfg, extension.NewHost())
+	}
 	st, err := open()
 	if err != nil {
 		panic(err)
 	}
-	desc := fmt.Sprintf("inproc/cap=%d/period=%v", cap, period)
-	e := c07.NewExec("C10", "file", desc, st, cap, 0, boxes)
+	desc := fmt.Sprintf("inproc/cap=%d/period=%v/changecap=%v", cap, period, changeCap)
+	e = c07.NewExec("C10", "file", desc, st, cap, 0, boxes)
 	e.Open = open
 	e.ScanCfg = sc
 	e.ContentEvery = 8
